@@ -1356,7 +1356,13 @@ def _(E, c):
 
 @model(RT + 'gas_available$')
 def _(E, c):
-    return E.materialize('u64', 'rt.gas_available')
+    g = E.materialize('u64', 'rt.gas_available')
+    # environment contract: the gas available to a message never exceeds the block gas limit (10^10 < 2^34);
+    # the bound used here is 2^40
+    if ('range', 'rt.gas_available.cap') not in E.ctx.memo:
+        E.ctx.memo[('range', 'rt.gas_available.cap')] = True
+        E.ctx.assume(g.v < 2**40)
+    return g
 
 
 @model(RT + '(base_fee|total_fil_circ_supply)$')
